@@ -200,6 +200,10 @@ func (r *verifRef) parseUnary() (string, bool) {
 	if t == "-" || t == "+" || t == "~" {
 		r.next()
 		e, ec := r.parseUnary()
+		// a sign directly applied to an unsigned numeric literal is part of the literal
+		if t != "~" && !ec && len(e) > 0 && e[0] >= '0' && e[0] <= '9' {
+			return t + e, false
+		}
 		return "(" + t + " " + r.wrap(e, ec) + ")", true
 	}
 	return r.parsePostfix()
@@ -216,7 +220,7 @@ func (r *verifRef) parsePostfix() (string, bool) {
 			r.err = true
 		}
 		e = "\x01" + inner + "\x02"
-	case len(t) == 1 && t[0] >= 'a' && t[0] <= 'z':
+	case len(t) == 1 && (t[0] >= 'a' && t[0] <= 'z' || t[0] >= '0' && t[0] <= '9'):
 		e = t
 	default:
 		r.err = true
@@ -372,6 +376,13 @@ func verifHarness_C07(nops, form int) {
 		for i := 0; i < nops; i++ {
 			x += " " + verifC07Ops[verifChoice(len(verifC07Ops))] + " " + verifC07Pre[verifChoice(len(verifC07Pre))] + " " + names[i+1]
 		}
+	case 3:
+		// numeric operands under several prefixes (sign folding): pre pre [pre] 1 op pre 2
+		x = verifC07Pre[verifChoice(len(verifC07Pre))] + " " + verifC07Pre[verifChoice(len(verifC07Pre))]
+		if nops > 1 {
+			x += " " + verifC07Pre[verifChoice(len(verifC07Pre))]
+		}
+		x += " 1 " + verifC07Ops[verifChoice(len(verifC07Ops))] + " " + verifC07Pre[verifChoice(len(verifC07Pre))] + " 2"
 	default:
 		where := verifChoice(nops + 1)
 		post := verifC07Post[verifChoice(len(verifC07Post))]
